@@ -141,3 +141,171 @@ pub fn report_to_cov<E: std::fmt::Debug>(rep: &Report<E>, prefix: &str, cov: &mu
         cov.insert(format!("{}cap_hit", prefix), json!(c));
     }
 }
+
+// ---------------------------------------------------------------------------
+// Glue: a "system" is a factory of worlds (real object + reference model)
+
+use crate::common::{fp64, machinery_failure, panic_message, Run};
+use serde::{de::DeserializeOwned, Serialize};
+
+pub struct StepOut {
+    pub outcome: u64,
+    pub violations: Vec<Violation>,
+    pub compared: u64,
+}
+
+pub trait World<E> {
+    /// Apply the event to the real object and to the reference model, compare
+    fn apply(&mut self, ev: &E) -> StepOut;
+    /// Internal consistency of the implementation state
+    fn invariants(&self) -> Vec<Violation>;
+    /// Canonical state key
+    fn key(&self) -> u128;
+    /// Destructive observations (the world is discarded afterwards)
+    fn probes(&mut self) -> (u64, Vec<Violation>, u64);
+}
+
+pub trait Sys<E>: Sync {
+    type W: World<E>;
+    fn name(&self) -> String;
+    fn tag(&self) -> &'static str;
+    fn fresh(&self) -> Self::W;
+    fn events(&self, w: &Self::W) -> Vec<E>;
+}
+
+pub fn replay<E, S: Sys<E>>(sys: &S, hist: &[E]) -> S::W {
+    let mut w = sys.fresh();
+    for e in hist {
+        w.apply(e);
+    }
+    w
+}
+
+fn one<E, S: Sys<E>>(sys: &S, hist: &[E], ev: &E) -> Result<(u128, u64, Vec<Violation>, u64), String> {
+    std::panic::catch_unwind(std::panic::AssertUnwindSafe(|| {
+        let mut w = replay(sys, hist);
+        let out = w.apply(ev);
+        let mut violations = out.violations;
+        violations.extend(w.invariants());
+        let key = w.key();
+        let (pf, pv, pc) = w.probes();
+        violations.extend(pv);
+        (key, fp64(&(out.outcome, pf)), violations, out.compared + pc)
+    }))
+    .map_err(|e| panic_message(&e))
+}
+
+fn panic_violation(tag: &str, msg: String) -> Violation {
+    Violation { signature: format!("{}/panic", tag), what: format!("tracker code panicked: {}", msg), detail: serde_json::json!({}) }
+}
+
+pub fn expand<E: Clone, S: Sys<E>>(sys: &S, hist: &[E]) -> Vec<Step<E>> {
+    let base = replay(sys, hist);
+    let evs = sys.events(&base);
+    drop(base);
+    evs.into_iter()
+        .map(|ev| match one(sys, hist, &ev) {
+            Ok((key, outcome, violations, compared)) => Step { event: ev, key: Some(key), outcome, violations, compared },
+            Err(msg) => Step { event: ev, key: None, outcome: 0, violations: vec![panic_violation(sys.tag(), msg)], compared: 1 },
+        })
+        .collect()
+}
+
+fn sigs_of<E, S: Sys<E>>(sys: &S, hist: &[E], ev: &E) -> Vec<String> {
+    let mut s: Vec<String> = match one(sys, hist, ev) {
+        Ok((_, _, v, _)) => v.into_iter().map(|v| v.signature).collect(),
+        Err(_) => vec![format!("{}/panic", sys.tag())],
+    };
+    s.sort();
+    s
+}
+
+/// Straight-line replay of a recorded history, without the explorer
+pub fn replay_case<E, S: Sys<E>>(sys: &S, hist: &[E]) -> Vec<Violation> {
+    let r = std::panic::catch_unwind(std::panic::AssertUnwindSafe(|| {
+        let mut out = Vec::new();
+        let mut w = sys.fresh();
+        for (i, e) in hist.iter().enumerate() {
+            let o = w.apply(e);
+            for mut v in o.violations {
+                v.what = format!("at event {}: {}", i, v.what);
+                out.push(v);
+            }
+            out.extend(w.invariants());
+        }
+        let (_, pv, _) = w.probes();
+        out.extend(pv);
+        out
+    }));
+    r.unwrap_or_else(|e| vec![panic_violation(sys.tag(), panic_message(&e))])
+}
+
+/// Run one BFS and fold the results into the run's evidence.
+pub fn run_bfs<E, S>(run: &mut Run, sys: &S, limits: &Limits, need_fixpoint: bool) -> bool
+where
+    E: Clone + Send + Sync + Serialize + std::fmt::Debug,
+    S: Sys<E>,
+{
+    use serde_json::json;
+    let name = sys.name();
+    let init = sys.fresh().key();
+    let rep = bfs(init, limits, |h| expand(sys, h));
+    let prefix = format!("{}.", name);
+    report_to_cov(&rep, &prefix, &mut run.cov);
+    run.add("states", rep.states);
+    run.add("transitions", rep.transitions);
+    run.add("traces_validated_against_impl", rep.transitions);
+    run.add("compared_calls", rep.compared);
+    let md = run.get("max_depth").max(rep.max_depth as u64);
+    run.set("max_depth", md);
+    eprintln!(
+        "[{}] {}: states={} transitions={} depth={} fixpoint={} outcomes={} cap={:?} t={:.1}s",
+        run.id, name, rep.states, rep.transitions, rep.max_depth, rep.fixpoint, rep.distinct_outcomes, rep.cap_hit, run.elapsed()
+    );
+    for h in rep.sample_histories.iter().take(2) {
+        run.sample(json!({ "run": name, "history": h }));
+    }
+    for (hist, v) in rep.violations {
+        // determinism: replay the offending history twice more and insist on identical observations
+        let (prefix_h, last) = hist.split_at(hist.len() - 1);
+        let r1 = sigs_of(sys, prefix_h, &last[0]);
+        let r2 = sigs_of(sys, prefix_h, &last[0]);
+        if r1 != r2 || !r1.iter().any(|s| *s == v.signature) {
+            machinery_failure(&format!("violation {} did not reproduce identically on replay of {:?}", v.signature, hist));
+        }
+        run.violation(
+            v.signature.clone(),
+            format!("{} [shortest history, {} events]", v.what, hist.len()),
+            json!({ "engine": sys.tag(), "alphabet": name, "history": hist, "signature": v.signature }),
+        );
+    }
+    if need_fixpoint && !rep.fixpoint {
+        run.set("exhaustive", false);
+        run.set("note_cap", format!("{}: fixpoint not reached ({:?})", name, rep.cap_hit));
+    }
+    rep.fixpoint
+}
+
+/// `--replay` for seqmc-based checks: find the system by name, replay the history.
+pub fn replay_from_file<E, S>(run: &mut Run, r: &Value, systems: &[S]) -> bool
+where
+    E: DeserializeOwned + Serialize,
+    S: Sys<E>,
+{
+    use serde_json::json;
+    let name = r["detail"]["alphabet"].as_str().unwrap_or("");
+    let Some(sys) = systems.iter().find(|s| s.name() == name) else {
+        return false;
+    };
+    if r["detail"]["engine"].as_str() != Some(sys.tag()) {
+        return false;
+    }
+    let hist: Vec<E> = serde_json::from_value(r["detail"]["history"].clone()).unwrap_or_else(|e| machinery_failure(&format!("bad history: {}", e)));
+    for v in replay_case(sys, &hist) {
+        run.violation(v.signature.clone(), v.what.clone(), json!({ "engine": sys.tag(), "alphabet": name, "history": hist }));
+    }
+    run.set("states", 1);
+    run.set("transitions", hist.len());
+    run.set("traces_validated_against_impl", 1);
+    true
+}
